@@ -68,7 +68,7 @@ static void gen(uint64_t seed, const std::string &prop, Plan &plan) {
             static const char *tgt[] = {"refuse", "blackhole", "nxdomain", "dnsname", "unreach"};
             static const char *ttp[] = {"tcp", "tls", "btcp", "btls", "utls"};
             plan.ops.push_back(Op{0, "connect_odd", {(int64_t)r.below(5)}, std::string(ttp[r.below(5)]) + ":" + tgt[r.below(5)], {}});
-        } else if (c < 50) plan.ops.push_back(Op{0, r.chance(0.25) ? "baccept" : "accept", {(int64_t)r.below((uint64_t)nsrv), (int64_t)r.below(6)}, "", {}});   // baccept: in blocking mode, when a connection is pending
+        } else if (c < 50) plan.ops.push_back(Op{0, r.chance(0.25) ? "baccept" : "accept", {(int64_t)r.below((uint64_t)nsrv), (int64_t)r.below(7)}, "", {}});   // baccept: in blocking mode, when a connection is pending
         else if (c < 65) plan.ops.push_back(Op{0, "pump", {(int64_t)r.below(3)}, "", {}});
         else if (c < 78) plan.ops.push_back(Op{0, "send", {(int64_t)r.below(8), (int64_t)(1 + r.below(r.chance(0.8) ? 300 : 60000))}, "", {}});
         else if (c < 86) plan.ops.push_back(Op{0, "close", {(int64_t)r.below(12)}, "", {}});
@@ -96,6 +96,7 @@ static struct xcm_attr_map *attr_variant(int v, bool accept_side, const std::str
     case 3: xcm_attr_map_add_str(m, "xcm.blocking", "yes"); break;                       // wrong type
     case 4: if (accept_side && tcpb) xcm_attr_map_add_double(m, "tcp.connect_timeout", 1.5); else xcm_attr_map_add_int64(m, "xcm.to_app_bytes", 3); break;   // not allowed here / read-only
     case 5: if (tcpb && tp != "utls") xcm_attr_map_add_int64(m, "tcp.keepalive_count", -4); else xcm_attr_map_add_str(m, "xcm.service", "nonsense"); break;   // bad value
+    case 6: xcm_attr_map_add_bool(m, "xcm.blocking", true); break;   // a blocking connection off a non-blocking server (switched back right after the call: one thread hosts both ends)
     }
     return m;
 }
@@ -229,7 +230,7 @@ static void program(const Plan *pl) {
                     struct xcm_attr_map *m = attr_variant((int)op.arg(1), true, tp);
                     XSock *c = x_accept(srv, m, strf("a%zu", LX->conns.size()));
                     if (m) xcm_attr_map_destroy(m);
-                    if (c) { if (blocking) x_set_blocking(c, false); LX->conns.push_back(c); }
+                    if (c) { if (blocking || !c->nonblocking) x_set_blocking(c, false); LX->conns.push_back(c); }
                     else G->count("probe.accept_failed");
                 }
                 if (blocking && !srv->closed) x_set_blocking(srv, false);
